@@ -15,6 +15,7 @@ REGISTRY = {
     "C19": ("props_stochasticnet", "check_C19"),
     "C12": ("props_currents", "check_C12"),
     "C17": ("props_tariff", "check_C17"),
+    "C15": ("props_eventgen", "check_C15"),
 }
 
 
